@@ -185,6 +185,9 @@ func bodyMulti(c *hk.Ctx, prop string) {
 			m.specByClass[t.Class] = t
 			classes[t.Class] = yamlTaskClass(t)
 		}
+		if prop == "C06" && c.W(4, "pending-call-hook") == 3 {
+			wf.CallHook = true
+		}
 		seen := map[string]bool{}
 		for _, t := range wf.Tasks {
 			if !seen[t.Host] {
@@ -639,6 +642,12 @@ func (m *multi) checkOwnershipHistory(final *obs) {
 		liveEnv := map[string]bool{}
 		for id := range after.envs {
 			liveEnv[id] = true
+		}
+		if len(liveEnv) == 0 {
+			// every environment is gone: none of their hook calls may still be waiting to be awaited
+			if left := hk.BlockedSummary("core/workflow/callable.(*Call).Start"); len(left) > 0 {
+				m.viol("C06", "pending-calls-cancelled", "call-goroutine-left-after-destroy", "all environments are gone but %d hook call(s) started for them are still waiting to be awaited: %v", len(left), left)
+			}
 		}
 		for _, t := range m.s.mesos.AliveTasks() {
 			owner := after.owner[t.ID]
